@@ -6,7 +6,9 @@ package certs
 //                              VerifyParent == nil <=> pairing/fingerprint/signature predicate, at every step; steps also
 //                              marshal a parsed certificate and overwrite the result (later answers must not change) and
 //                              change a field of a parsed certificate, Marshal + ReadFrom it and query THAT object (judged
-//                              for the changed content under the old signature)
+//                              for the changed content under the old signature); chain members are also re-read into
+//                              Certificate values that were ReadFrom targets before (other certificates, the same one,
+//                              truncated / arbitrary bytes): the content read LAST decides, exactly as for a fresh value
 //   TestVerifC04Issued         rapid: chains made only by the issuing functions verify at every instant inside all three windows
 //   TestVerifC04BitFlips       enumeration: every single-bit flip (and raw field overwrite) of leaf / intermediate / root bytes
 //   TestVerifC04Substitutions  enumeration: properly signed (and stale-signed) single-field substitutions, through the model
@@ -20,6 +22,7 @@ import (
 	"os"
 	"strings"
 	"testing"
+	"testing/iotest"
 	"time"
 
 	"github.com/sirupsen/logrus"
@@ -45,7 +48,22 @@ const (
 	// truth is the CHANGED content under the signature A already had, so unless the change left the content as it
 	// was it must be rejected wherever A's signature matters.
 	c04OpModify
+	// c04OpReread: certificate A is read (ReadFrom) into a Certificate value that has been a ReadFrom target before.
+	// Fresh: a new value first receives the earlier reads in Prior (other certificates, A itself, truncated or
+	// arbitrary bytes - those reads may fail) and then A's bytes, and replaces the forest's object (Own: its
+	// separately parsed copy) in all later steps. Otherwise the EXISTING object - which may sit in the Store - receives
+	// Prior and then A's bytes again. "ReadFrom populates a certificate from serialized bytes": the value describes
+	// what was read last, so nothing the model says changes; the value must be indistinguishable from a fresh one.
+	c04OpReread
 )
+
+// c04Prior is one earlier use of a Certificate value as ReadFrom target.
+type c04Prior struct {
+	Src  int    `json:"src"`            // bytes of forest certificate Src (mod number of certificates)
+	Cut  int    `json:"cut,omitempty"`  // != 0: a truncated read: only the first Cut-1 bytes (Cut < 0: all but the last -Cut)
+	Junk uint64 `json:"junk,omitempty"` // != 0: as many arbitrary bytes instead
+	Rd   int    `json:"rd,omitempty"`   // reader kind, see c04ReadInto
+}
 
 type c04Step struct {
 	Op   int     `json:"op"`
@@ -58,6 +76,10 @@ type c04Step struct {
 	Nsec int64   `json:"nsec,omitempty"` //
 	Zone int     `json:"zone,omitempty"` // 0 local, 1 UTC, 2 fixed +05:30 (same instant)
 	Mod  *c04Mod `json:"mod,omitempty"`  // c04OpModify: the change
+	// c04OpReread, c04OpModify: earlier ReadFrom calls on the Certificate value that then receives the certificate
+	Prior []c04Prior `json:"prior,omitempty"`
+	Fresh bool       `json:"fresh,omitempty"` // c04OpReread: a new value (replacing the object) instead of the existing one
+	Rd    int        `json:"rd,omitempty"`    // reader kind of the read that counts
 }
 
 type c04Case struct {
@@ -106,6 +128,7 @@ func c04Run(c c04Case, v *vlib.Verdict) {
 
 	var store Store
 	mstore := map[[32]byte]*c04Obj{}
+	sptr := map[[32]byte]*Certificate{} // the value the Store was given for a fingerprint (AddCertificate keeps the pointer)
 	var bundle bytes.Buffer
 	for _, i := range c.Store {
 		if !inRange(i) {
@@ -116,6 +139,7 @@ func c04Run(c c04Case, v *vlib.Verdict) {
 			pem.Encode(&bundle, &pem.Block{Type: PEMTypeHopCertificate, Bytes: w.objs[i].raw})
 		} else {
 			store.AddCertificate(w.objs[i].obj)
+			sptr[w.objs[i].fp] = w.objs[i].obj
 		}
 		mstore[w.objs[i].fp] = w.objs[i]
 	}
@@ -139,6 +163,7 @@ func c04Run(c c04Case, v *vlib.Verdict) {
 	}
 
 	accepts, nearMisses := 0, 0
+	reused := map[*Certificate]bool{} // values that were ReadFrom targets more than once
 	for si, st := range c.Steps {
 		switch st.Op {
 		case c04OpAdd:
@@ -148,6 +173,7 @@ func c04Run(c c04Case, v *vlib.Verdict) {
 			}
 			store.AddCertificate(w.objs[st.A].obj)
 			mstore[w.objs[st.A].fp] = w.objs[st.A]
+			sptr[w.objs[st.A].fp] = w.objs[st.A].obj
 			v.Label("step:add")
 
 		case c04OpScribble:
@@ -218,6 +244,20 @@ func c04Run(c c04Case, v *vlib.Verdict) {
 				v.Failf("C04:modified-certificate-unparseable", "step %d: certificate %d parsed, %s changed, marshalled: ReadFrom fails: %v", si, st.A, c04ModNames[st.Mod.Kind], err)
 				return
 			}
+			if len(st.Prior) > 0 {
+				// the changed certificate is read into a value that served other reads before
+				prs, ok := w.priorReads(st.Prior)
+				if !ok || st.Rd < 0 || st.Rd > 2 {
+					v.Discard = true
+					return
+				}
+				q = new(Certificate)
+				if !c04ReadReused(v, q, false, prs, b, st.Rd) {
+					return
+				}
+				reused[q] = true
+				v.Label("step:modify/into-reused-value")
+			}
 			nobj.obj, nobj.own = q, q
 			w.objs = append(w.objs, nobj)
 			if _, dup := w.byFP[nobj.fp]; !dup {
@@ -226,6 +266,48 @@ func c04Run(c c04Case, v *vlib.Verdict) {
 			v.Label("step:modify:" + c04ModNames[st.Mod.Kind])
 			if nobj.modSame {
 				v.Label("step:modify/content-unchanged")
+			}
+
+		case c04OpReread:
+			if !inRange(st.A) || st.Rd < 0 || st.Rd > 2 || (st.Fresh && len(st.Prior) == 0) {
+				v.Discard = true
+				return
+			}
+			o := w.objs[st.A]
+			prs, ok := w.priorReads(st.Prior)
+			if !ok {
+				v.Discard = true
+				return
+			}
+			target := o.obj
+			if st.Own {
+				if target, err = w.ownCopy(st.A); err != nil {
+					v.Inconclusive = err.Error()
+					return
+				}
+			}
+			dirty := len(o.spec.Names) > 0
+			if st.Fresh {
+				target, dirty = new(Certificate), false
+			}
+			if dirty && vlib.KnownOpen(c04SigReusedNames) && vlib.GetEnv().Replay == "" {
+				v.Label("reuse:left-out/known-finding")
+				continue
+			}
+			if !c04ReadReused(v, target, dirty, prs, o.raw, st.Rd) {
+				return
+			}
+			reused[target] = true
+			if st.Fresh {
+				if st.Own || o.own == o.obj {
+					o.own = target
+				}
+				if !st.Own {
+					o.obj = target
+				}
+				v.Label("step:reread/new-value")
+			} else {
+				v.Label("step:reread/existing-value")
 			}
 
 		case c04OpVerifyParent:
@@ -350,6 +432,30 @@ func c04Run(c c04Case, v *vlib.Verdict) {
 			default:
 				v.Label("q:reject:3+clauses")
 			}
+			if len(reused) > 0 && nFalse <= 1 {
+				what := ""
+				if reused[leaf.obj] {
+					what += "+leaf"
+				}
+				if pres != nil && reused[pres] {
+					what += "+presented"
+				}
+				{
+					for _, k := range []int{c04InterTime, c04RootTime} {
+						if o := c04ChainMember(w, leaf, presTruth, mstore, k); o != nil && reused[sptr[o.fp]] {
+							what += "+stored"
+							break
+						}
+					}
+				}
+				if what != "" {
+					if nFalse == 0 {
+						v.Label("q:accept/reused-value:" + what[1:])
+					} else {
+						v.Label("q:near-miss/reused-value")
+					}
+				}
+			}
 			if nFalse == 0 {
 				for _, k := range []int{c04LeafTime, c04InterTime, c04RootTime} {
 					if o := c04ChainMember(w, leaf, presTruth, mstore, k); o != nil {
@@ -379,6 +485,160 @@ func c04Run(c c04Case, v *vlib.Verdict) {
 		lead = "case:near-misses"
 	}
 	v.Labels = append([]string{lead}, v.Labels...)
+}
+
+// ---------------------------------------------------------------------------
+// Certificate values that are ReadFrom targets more than once
+
+// c04SigReusedNames is the signature of "names of an earlier read survive in a re-used value". While it is listed
+// as an open finding the reads that would trigger it are left out (label reuse:left-out/known-finding) so that the
+// search goes on for everything else a re-used value may get wrong.
+const c04SigReusedNames = "C04:reused-value-differs-from-last-parse:names"
+
+// c04ReadInto is one ReadFrom call on value c: rd 0 from a bytes.Reader, 1 from a stream that continues after the
+// certificate, 2 from a reader that hands out one byte per Read call.
+func c04ReadInto(c *Certificate, b []byte, rd int) (int64, error) {
+	switch rd {
+	case 1:
+		return c.ReadFrom(bytes.NewBuffer(append(append(make([]byte, 0, len(b)+7), b...), 1, 0xee, 0, 0, 0xff, 2, 3)))
+	case 2:
+		return c.ReadFrom(iotest.OneByteReader(bytes.NewReader(b)))
+	}
+	return c.ReadFrom(bytes.NewReader(b))
+}
+
+// c04Region names the field in which two serialisations first differ.
+func c04Region(a, b []byte) string {
+	if len(a) != len(b) {
+		return "names"
+	}
+	for i := range a {
+		if a[i] != b[i] {
+			switch {
+			case i >= len(a)-SignatureLen:
+				return "signature"
+			case i < 1:
+				return "version"
+			case i < 2:
+				return "type"
+			case i < 4:
+				return "reserved"
+			case i < 12:
+				return "issued-at"
+			case i < 20:
+				return "expires-at"
+			case i < 52:
+				return "public-key"
+			case i < 84:
+				return "parent"
+			}
+			return "names"
+		}
+	}
+	return "none"
+}
+
+// c04PriorRead is one earlier read: its bytes and whether it can leave complete names behind.
+type c04PriorRead struct {
+	b     []byte
+	rd    int
+	names bool
+	kind  string
+}
+
+// c04ReadReused makes value c the target of the earlier reads in priors (each may succeed or fail) and then of raw,
+// a well-formed certificate, and compares c with a fresh value that read raw only: same result, same fingerprint,
+// same serialisation. dirty says that c already holds names when it gets here. It returns false if the case ends here.
+func c04ReadReused(v *vlib.Verdict, c *Certificate, dirty bool, priors []c04PriorRead, raw []byte, rd int) bool {
+	leaveOut := vlib.KnownOpen(c04SigReusedNames) && vlib.GetEnv().Replay == "" // a stored case is replayed as it is
+	if leaveOut && dirty {
+		v.Label("reuse:left-out/known-finding")
+		return true
+	}
+	for _, p := range priors {
+		if leaveOut && p.names {
+			v.Label("reuse:left-out/known-finding")
+			continue
+		}
+		var err error
+		if vlib.Guard(v, func() { _, err = c04ReadInto(c, p.b, p.rd) }) {
+			return false
+		}
+		if err == nil {
+			v.Label("reuse:earlier-read:" + p.kind + ":parsed")
+		} else {
+			v.Label("reuse:earlier-read:" + p.kind + ":failed")
+		}
+	}
+	fresh := new(Certificate)
+	fn, ferr := fresh.ReadFrom(bytes.NewReader(raw))
+	if ferr != nil || int(fn) != len(raw) {
+		v.Inconclusive = fmt.Sprintf("well-formed certificate does not parse into a fresh value: %d of %d bytes, %v", fn, len(raw), ferr)
+		return false
+	}
+	fb, ferr := fresh.Marshal()
+	if ferr != nil {
+		v.Inconclusive = "Marshal of a freshly parsed certificate: " + ferr.Error()
+		return false
+	}
+	var n int64
+	var err error
+	if vlib.Guard(v, func() { n, err = c04ReadInto(c, raw, rd) }) {
+		return false
+	}
+	if err != nil || int(n) != len(raw) {
+		v.Failf("C04:reused-value-read-fails:ReadFrom", "ReadFrom of a well-formed certificate (%d bytes) into a Certificate value that was a ReadFrom target before: n=%d err=%v; a fresh value reads it", len(raw), n, err)
+		return false
+	}
+	if c.Fingerprint != fresh.Fingerprint || c.Fingerprint != sha3.Sum256(raw) {
+		v.Failf("C04:fingerprint-not-sha3-of-bytes:ReadFrom", "re-used Certificate value: Fingerprint %x, SHA3-256 of the bytes read last %x", c.Fingerprint, sha3.Sum256(raw))
+		return false
+	}
+	var b []byte
+	if vlib.Guard(v, func() { b, err = c.Marshal() }) {
+		return false
+	}
+	if err != nil {
+		v.Failf("C04:parsed-certificate-unserialisable", "Marshal of a re-used Certificate value after a successful ReadFrom: %v", err)
+		return false
+	}
+	if !bytes.Equal(b, fb) {
+		v.Failf("C04:reused-value-differs-from-last-parse:"+c04Region(b, fb), "a Certificate value that was a ReadFrom target before serialises to %d bytes after reading a certificate, a fresh value that read the same bytes to %d (first difference: %s)\n re-used %x\n fresh   %x",
+			len(b), len(fb), c04Region(b, fb), b, fb)
+		return false
+	}
+	return true
+}
+
+// priorReads turns the case's description of earlier reads into bytes.
+func (w *c04World) priorReads(prior []c04Prior) ([]c04PriorRead, bool) {
+	var out []c04PriorRead
+	for _, p := range prior {
+		if p.Src < 0 || p.Rd < 0 || p.Rd > 2 || len(w.objs) == 0 {
+			return nil, false
+		}
+		src := w.objs[p.Src%len(w.objs)]
+		r := c04PriorRead{b: src.raw, rd: p.Rd, names: len(src.spec.Names) > 0, kind: "certificate"}
+		switch {
+		case p.Junk != 0:
+			r.b, r.names, r.kind = vlib.Fill(p.Junk, len(src.raw)), len(src.raw) > 86+SignatureLen, "arbitrary"
+		case p.Cut != 0:
+			cut := p.Cut - 1
+			if p.Cut < 0 {
+				cut = len(src.raw) + p.Cut
+			}
+			if cut < 0 {
+				cut = 0
+			}
+			if cut >= len(src.raw) {
+				cut = len(src.raw) - 1
+			}
+			// names are complete only behind the chunk's length field (offset 84..85)
+			r.b, r.names, r.kind = src.raw[:cut], r.names && cut > 86, "truncated"
+		}
+		out = append(out, r)
+	}
+	return out, true
 }
 
 // c04ChainMember returns the chain member a time clause talks about.
@@ -671,6 +931,31 @@ func c04Gen(t *rapid.T) c04Case {
 			return c04Mod{Kind: c04ModParent, Val: int64(pick("modParent", n+1)) - 1}
 		}
 	}
+	// earlier reads of a re-used Certificate value: another certificate, the same one, a truncated read, arbitrary bytes
+	genPrior := func(target int, mayBeEmpty bool) []c04Prior {
+		np := c04From(d, "nprior", []int{1, 1, 1, 2, 2, 3, 0})
+		if np == 0 && !mayBeEmpty {
+			np = 1
+		}
+		var out []c04Prior
+		for j := 0; j < np; j++ {
+			p := c04Prior{Src: pick("priorSrc", n)}
+			switch k := pick("priorKind", 16); {
+			case k < 3:
+				p.Src = target
+			case k < 7:
+				if d.coin("cutSelf", 1) {
+					p.Src = target
+				}
+				p.Cut = c04From(d, "cut", []int{1, 2, 5, 13, 21, 53, 85, 86, 87, 88, 90, 100, -SignatureLen - 1, -SignatureLen, -SignatureLen + 1, -1, -2})
+			case k < 8:
+				p.Junk = 1 + uint64(pick("junk", 1000))
+			}
+			p.Rd = c04From(d, "priorRd", []int{0, 0, 0, 0, 1, 2})
+			out = append(out, p)
+		}
+		return out
+	}
 	nMods := 0
 	nSteps := 3 + pick("nsteps", 8)
 	for k := 0; k < nSteps; k++ {
@@ -687,8 +972,25 @@ func c04Gen(t *rapid.T) c04Case {
 		// serialisation of a chain member and overwrite it, or change a field of a parsed copy and put it back on the
 		// wire (the step that follows then asks about the re-parsed object).
 		modLeaf, modInter := -1, -1
+		reread := -1
 		var mod c04Mod
 		switch pre := pick("pre", 100); {
+		case pre >= 86:
+			// a chain member is read into a Certificate value that was a ReadFrom target before
+			cand := []int{l}
+			if i >= 0 {
+				cand = append(cand, i, i)
+			}
+			if r >= 0 {
+				cand = append(cand, r, r)
+			}
+			rs := c04Step{Op: c04OpReread, A: cand[pick("rereadWhich", len(cand))], B: -1, Name: c04NameNone, Fresh: d.coin("rereadFresh", 1), Own: d.coin("rereadOwn", 2)}
+			rs.Prior = genPrior(rs.A, !rs.Fresh)
+			rs.Rd = c04From(d, "rereadRd", []int{0, 0, 0, 1, 2})
+			c.Steps = append(c.Steps, rs)
+			if rs.Fresh && !rs.Own && rs.A != l {
+				reread = rs.A
+			}
 		case pre < 12:
 			cand := []int{l}
 			if i >= 0 {
@@ -708,7 +1010,12 @@ func c04Gen(t *rapid.T) c04Case {
 				target = i
 			}
 			mod = genMod()
-			c.Steps = append(c.Steps, c04Step{Op: c04OpModify, A: target, B: -1, Name: c04NameNone, Mod: &c04Mod{Kind: mod.Kind, Val: mod.Val}})
+			ms := c04Step{Op: c04OpModify, A: target, B: -1, Name: c04NameNone, Mod: &c04Mod{Kind: mod.Kind, Val: mod.Val}}
+			if d.coin("modIntoReused", 2) {
+				ms.Prior = genPrior(target, false)
+				ms.Rd = c04From(d, "modRd", []int{0, 0, 0, 1, 2})
+			}
+			c.Steps = append(c.Steps, ms)
 			if target == l {
 				modLeaf = n + nMods
 			} else {
@@ -825,6 +1132,8 @@ func c04Gen(t *rapid.T) c04Case {
 			st.A, st.B = l, modInter
 		case modInter >= 0 && st.Op == c04OpAdd:
 			st.A = modInter
+		case reread >= 0 && st.Op == c04OpAdd:
+			st.A = reread // the Store is given the re-used value
 		}
 		c.Steps = append(c.Steps, st)
 	}
@@ -962,6 +1271,8 @@ type c04APICase struct {
 	Names    []int      `json:"names"`
 	Reparse  int        `json:"reparse"`            // bit 0 leaf, 1 intermediate, 2 root: verify the marshalled and re-read certificate
 	Scribble int        `json:"scribble,omitempty"` // bit 0 leaf, 1 intermediate, 2 root: before the probes the member in use is marshalled once more and every byte of that serialisation is overwritten by its caller
+	Reuse    int        `json:"reuse,omitempty"`    // bit 0 leaf, 1 intermediate, 2 root: the re-read (Reparse) goes into a Certificate value that was a ReadFrom target before, see ReuseHow
+	ReuseHow int        `json:"reusehow,omitempty"` // earlier reads of that value: 0 the next chain member, 1 the same bytes, 2 the same bytes cut short, 3 next member then same bytes, 4 arbitrary bytes, 5 both other members
 	Layout   int        `json:"layout"`             // 0 presented + store{root}; 1 store{root, intermediate}; 2 both
 	Probes   []c04Probe `json:"probes"`
 }
@@ -1079,17 +1390,55 @@ func c04APIRun(c c04APICase, v *vlib.Verdict) {
 		return
 	}
 	chain := [3]*Certificate{leaf, inter, root}
+	var wire [3][]byte
+	for i := range chain {
+		if wire[i], err = chain[i].Marshal(); err != nil {
+			v.Failf("C04:issued-certificate-unserialisable", "member %d: %v", i, err)
+			return
+		}
+	}
+	if c.Reuse < 0 || c.Reuse > 7 || c.ReuseHow < 0 || c.ReuseHow > 5 {
+		v.Discard = true
+		return
+	}
 	for i := range chain {
 		if c.Reparse&(1<<i) != 0 {
-			b, err := chain[i].Marshal()
-			if err != nil {
-				v.Failf("C04:issued-certificate-unserialisable", "member %d: %v", i, err)
-				return
-			}
+			b := wire[i]
 			p, err := c04Parse(b)
 			if err != nil {
 				v.Failf("C04:issued-certificate-unparseable", "member %d: %v", i, err)
 				return
+			}
+			if c.Reuse&(1<<i) != 0 {
+				// the value that receives the certificate has received others before; only the last read counts
+				named := func(k int) bool { return k == 0 && len(c.Names) > 0 }
+				whole := func(k int) c04PriorRead {
+					return c04PriorRead{b: wire[k], names: named(k), kind: "certificate"}
+				}
+				var prs []c04PriorRead
+				switch c.ReuseHow {
+				case 0:
+					prs = []c04PriorRead{whole((i + 1) % 3)}
+				case 1:
+					prs = []c04PriorRead{whole(i)}
+				case 2:
+					cut := len(b) - SignatureLen/2
+					if c.Seed%2 == 0 {
+						cut = 60
+					}
+					prs = []c04PriorRead{{b: b[:cut], names: named(i) && cut > 86, kind: "truncated"}}
+				case 3:
+					prs = []c04PriorRead{whole((i + 1) % 3), whole(i)}
+				case 4:
+					prs = []c04PriorRead{{b: vlib.Fill(c.Seed+uint64(i), len(b)), names: len(b) > 86+SignatureLen, kind: "arbitrary"}}
+				case 5:
+					prs = []c04PriorRead{whole((i + 2) % 3), whole((i + 1) % 3)}
+				}
+				p = new(Certificate)
+				if !c04ReadReused(v, p, false, prs, b, int(c.Seed/2)%3) {
+					return
+				}
+				v.Label("issued:read-into-reused-value")
 			}
 			chain[i] = p
 		}
@@ -1226,6 +1575,10 @@ func c04APIGen(t *rapid.T) c04APICase {
 		Reparse:  c04From(d, "reparse", []int{0, 7, 7, 1, 2, 4, 3, 5, 6}),
 		Layout:   d.n("layout", 3),
 		Scribble: c04From(d, "scribble", []int{0, 0, 0, 1, 2, 4, 7, 3}),
+	}
+	if d.coin("reuse", 1) {
+		c.Reuse = c04From(d, "reuseWhich", []int{7, 7, 1, 2, 4, 3, 5, 6}) & c.Reparse
+		c.ReuseHow = d.n("reuseHow", 6)
 	}
 	c.InterAt = atGen("inter", 5*365*day)
 	span := c.InterDur
